@@ -15,7 +15,7 @@ from . import ser_common as sc
 LEVEL = "proof"
 MANIFEST_ENTRY = {
     "category": "proof",
-    "text": "Lean 4 theorems over a step-level model of save()'s filesystem protocol (staging next to the target, install, discard on failure): for every store, number of writes, pre-state and fault position the target is afterwards unchanged, absent or the complete new object (never partial), a non-raising call leaves the complete object, write-once raises before any effect, no other path changes. Tied to the code on every run by injecting an exception at EVERY primitive write/zip-assembly/install call of the real save() (exhaustive in the fault position for each generated graph, both stores, both modes, six pre-states: absent, foreign file, foreign directory, zero-byte file, empty directory, earlier checkpoint), feeding the recorded primitive trace to the model and comparing outcomes; the property clauses are evaluated on the real filesystem (hashes of siblings, load() of the target). Histories of saves onto one target (theorem saves_history: the target is always the initial content, absent, or the complete object of a call that returned normally) are run on the real code with faults at random primitives and compared prefix by prefix with the model's runCalls.",
+    "text": "Lean 4 theorems over a step-level model of save()'s filesystem protocol (staging next to the target, install, discard on failure): for every store, number of writes, pre-state and fault position the target is afterwards unchanged, absent or the complete new object (never partial), a non-raising call leaves the complete object, write-once raises before any effect, no other path changes; and over HISTORIES of saves onto one target with any faults (`saves_history`): the target is always its initial content, absent, or the complete object of a call that returned normally (`raise_never_installs`). Tied to the code on every run by injecting an exception at EVERY primitive write/zip-assembly/install call of the real save() (exhaustive in the fault position for each generated graph, both stores, both modes, six pre-states: absent, foreign file, foreign directory, zero-byte file, empty directory, earlier checkpoint), feeding the recorded primitive trace to the model and comparing outcomes; the property clauses are evaluated on the real filesystem (hashes of siblings, load() of the target). Histories of saves onto one target (theorem saves_history: the target is always the initial content, absent, or the complete object of a call that returned normally) are run on the real code with faults at random primitives and compared prefix by prefix with the model's runCalls.",
     "note": "Trusted: Lean kernel + standard axioms; os/shutil/zipfile/zarr filesystem semantics (existence, remove, replace, directory listing); faults are exceptions raised at the entry of a primitive (no process kill / power loss / concurrent writers / TOCTOU between exists and open).",
     "technique": "Lean 4 proof (induction over step lists, all fault positions) + exhaustive fault-injection correspondence",
 }
